@@ -200,7 +200,7 @@ PLAN = {
         crate_modules=["__vrec"],
         verus=["c05_frame_injective.rs"],
         functions=[],
-        assumptions=[MAPS_ASSUMPTION, FMT_ASSUMPTION, "FnvHasher is replaced by a byte-stream recorder in the hash-level harnesses; A1: the 64-bit FNV-1a result is a function of the stream and distinct streams do not collide", "vector-logic harnesses instantiate MetricVecCore with a light builder defined in the harness (children remember what they were built from); the real builders are under separate obligations: make_label_pairs (label set = declared names x supplied values + const pairs, sorted) is under its own obligation; the builders themselves (Opts::describe -> Desc::new -> Value::new with a label: > 15 min under CBMC, measured; kani/counter_c05.rs kept but not registered) are not, so "starts from zero" rests on reading `P::T::from_i64(0)` in with_opts_and_label_values", SORT_ASSUMPTION],
+        assumptions=[MAPS_ASSUMPTION, FMT_ASSUMPTION, "FnvHasher is replaced by a byte-stream recorder in the hash-level harnesses; A1: the 64-bit FNV-1a result is a function of the stream and distinct streams do not collide", "vector-logic harnesses instantiate MetricVecCore with a light builder defined in the harness (children remember what they were built from); the real builders are under separate obligations: make_label_pairs (label set = declared names x supplied values + const pairs, sorted) is under its own obligation; the builders themselves (Opts::describe -> Desc::new -> Value::new with a label: > 15 min under CBMC, measured; kani/counter_c05.rs kept but not registered) are not, so the clause starts-from-zero rests on reading `P::T::from_i64(0)` in with_opts_and_label_values", SORT_ASSUMPTION],
     ),
     "C10": dict(
         title="Concurrent use of a metric vector is linearizable",
